@@ -52,10 +52,12 @@ func runC34(c *eng.Ctx) {
 		}
 	}
 	if len(disj) != 2 {
-		c.Fail("R1", f.Where(), what, p.Pos(f.Body.Pos()), "return expression does not have that shape")
+		c.Fail("R1", f.Where(), what, p.Pos(f.Body.Pos()), "the function is not a single return of that form (the complement and monotonicity clauses are decided on that form only)")
+		runC34Rest(c)
 		return
 	}
 	c.Pass("R1", f.Where(), what, "")
+	defer runC34Rest(c)
 	g1, g1op, ok1 := eng.LinearCmpReal(f.Info, disj[0][0])
 	g2, g2op, ok2 := eng.LinearCmpReal(f.Info, disj[1][0])
 	p1, p1op, ok3 := eng.LinearCmpReal(f.Info, disj[0][1])
@@ -74,7 +76,11 @@ func runC34(c *eng.Ctx) {
 	c.Check("R1", f.Where(), "the predicate for ratio r-1 is the exact complement of the predicate for ratio r (over the reals)", show(q, p2op) == show(np, npop), p.Pos(ret.Pos()), "P: "+show(p1, p1op)+"; Q: "+show(p2, p2op)+"; Q[r-1]: "+show(q, p2op)+"; ¬P: "+show(np, npop))
 	// P is offset < r: strict, monotone in r, independent of anything else
 	c.Check("R1", f.Where(), "the predicate for a non-negative ratio is sampleOffset < ratioLimit (raising the ratio never deselects)", show(p1, p1op) == "-1*ratioLimit +1*sampleOffset < 0", p.Pos(ret.Pos()), show(p1, p1op))
+}
 
+func runC34Rest(c *eng.Ctx) {
+	p := c.P
+	H := "promql:HashRatioSampler"
 	// ---- R2 the offset depends on the labels only ----
 	so := c.Fn(H + ".SampleOffset")
 	so.Only("R2", eng.Return("return", func(g *eng.Graph, rs *ast.ReturnStmt) bool { return true }), "is the label hash scaled by the largest hash", func(l eng.Loc) bool {
